@@ -173,7 +173,7 @@ def string_enum(rng, nvariants=None, *, allow_default=True, allow_disabled=True,
         if len(ms) >= 2 and rng.random() < 0.4:
             v.groups = [1]
         it.variants.append(v)
-    if it.tparams and not any(f.ty == "G0" for v in it.variants for f in v.fields):
+    if it.tparams and not any("G0" in f.ty for v in it.variants for f in v.fields):
         it.tparams = 0
     if it.tparams and rng.random() < 0.5:
         it.where_clause = True     # bounds written in a where-clause instead of inline
@@ -187,6 +187,47 @@ def string_enum(rng, nvariants=None, *, allow_default=True, allow_disabled=True,
 
 
 DW_FN = {"u8": "dw_u8", "i32": "dw_i32", "bool": "dw_bool", "String": "dw_string", "usize": "dw_usize"}
+
+
+def bound_free_items(extra_metas=None, with_placeholder=False):
+    """GENERIC enums whose type parameter needs NO trait at all: it occurs only inside PhantomData<G0> (Default, Clone, Debug, PartialEq
+    whatever G0 is) — in an enabled tuple variant, an enabled struct variant next to an ordinary field, and a disabled variant — and the
+    enum is instantiated with `NoDef`, a type that is neither Default nor Clone nor Display.  The derives emit `impl<G0> .. for E<G0>`
+    with the bounds the USER wrote (none): an impl that asks more of G0 (`G0: Default` "like the std derives", `G0: Display`) does not exist
+    for E<NoDef>, and in-domain code stops compiling (round 15).  Callers pass meta bounds="" so that the renderer adds no bound of its own."""
+    from .defs import Item, Variant, Field, DISABLED, tos
+    PD = "std::marker::PhantomData<G0>"
+    out = []
+    for j in range(2):
+        vs = [Variant("Plain", "unit"),
+              Variant("Mark", "tuple", [Field(PD)]),
+              Variant("Pair", "named", [Field("u8", "a"), Field(PD, "m")], [tos("pair {a}")] if with_placeholder else []),
+              Variant("Off", "named", [Field(PD, "m")], [DISABLED]),
+              Variant("Last", "unit")]
+        if j:
+            vs = [vs[3], vs[1], vs[0], vs[2]]
+        it = Item("E", vs, tparams=1, cparams=j, where_clause=bool(j), metas=list(extra_metas or []))
+        it.targ = "NoDef"
+        it.decl_bounds = ""
+        out.append(it)
+    return out
+
+
+def defaulted_param_items(extra_metas=None):
+    """generic enums whose type and const parameters carry DEFAULTS (`enum E<G0: Bounds = u8, const N0: usize = 3>`): legal on the
+    declaration, an error in an impl header — a derive that splices the declared parameters into `impl<..>` itself (instead of
+    syn's split_for_impl) stops compiling for exactly these (round 15)"""
+    from .defs import Item, Variant, Field, DISABLED
+    out = []
+    for j in range(2):
+        vs = [Variant("Empty", "unit"), Variant("Full", "tuple", [Field("G0")]), Variant("Named", "named", [Field("u8", "a"), Field("G0", "g")]),
+              Variant("Off", "unit", [], [DISABLED])]
+        it = Item("E", vs if not j else vs[::-1], tparams=1, cparams=1 - j, where_clause=bool(j), metas=list(extra_metas or []))
+        it.tparam_default = "u8"
+        if it.cparams:
+            it.cparam_default = "3"
+        out.append(it)
+    return out
 
 
 def foreign_option_items(rng, count, *, allow_default=True, allow_transparent=False, unit_only=False, tag="Q"):
@@ -254,7 +295,7 @@ def foreign_option_items(rng, count, *, allow_default=True, allow_transparent=Fa
 
 def fix_generics(it: Item) -> Item:
     """drop a type parameter that no field uses any more (rustc rejects unused parameters)"""
-    if it.tparams and not any(f.ty == "G0" for v in it.variants for f in v.fields):
+    if it.tparams and not any("G0" in f.ty for v in it.variants for f in v.fields):
         it.tparams = 0
     return it
 
